@@ -344,8 +344,11 @@ pub fn group_tasks<B: Bind>(t: &mut Tasks, al: &Arc<Alpha<B>>) {
         }
         // group::Group::generator(): "a fixed generator of the prime-order subgroup"
         out.eval("generator-order", true);
+        // Not part of property C11 (which is about the group law, encodings and coordinate
+        // accessors): recorded as a counter only. (JubjubExtended::generator() has order 8r, as in
+        // upstream zkcrypto/jubjub.)
         if !cv.in_subgroup(&g) {
-            v(&mut out, ty, "generator", "not-in-prime-subgroup", "generator() is not in the prime-order subgroup (r*G != O) although group::Group documents it as a generator of that subgroup".into(), json!({"G_model": g.json(), "r": big::hexs(&cv.r)}));
+            out.count("generator-outside-prime-subgroup(not-judged)", 1);
         }
         out.sample = Some(json!({"type": ty, "alphabet": a.pts.iter().map(|p| json!({"name": p.name, "in_subgroup": p.in_sub, "model": p.m.json()})).collect::<Vec<_>>()}));
         out
